@@ -73,7 +73,7 @@ def case(ctx, rng, idx):
         if g in ("NOT", "BUFFER"):
             ar = 1
         else:
-            ar = rng.randint(2 if eq else 1, 6)
+            ar = rng.randint(2 if eq else 1, 6) if rng.random() < 0.92 else rng.randint(7, 10)      # "any admissible number of operands"
         ops = []
         for _ in range(ar):
             if rng.random() < 0.35:
